@@ -30,7 +30,7 @@ fn run_case(family: &str, args: &[u128]) -> Vec<u128> {
         "ranges" => plan::ranges(args),
         "outboard" => proto::outboard(args),
         "encode" => proto::encode(args),
-        "decode" => proto::decode(args),
+        "decode" | "decode_ids" => proto::decode(args),
         "validate" => proto::validate(args),
         "agree_enc" => proto::agree_enc(args),
         "agree_dec" => proto::agree_dec(args),
